@@ -218,6 +218,14 @@ def run(rep: Report, tier: str) -> None:
                 bal_loops += 1
                 _check_balance_loop(rep, rb, gen, node, it, want_bal_iter, body_paths, roles, once, spec)
     _check_groupby(rep, re_, prog)
+    from . import c07, c10
+
+    rf = rep.rule("C15.f", "the lots counted are those acquired up to the to-date on their own calendar date (entry-set iterator), like the balances' replay", floor=2)
+    c10.check_iterator_window(rep, rf, m, "a lot near the to-date boundary would be in the reported balance but not in the unrealized cost (or the reverse): realized + unrealized no longer equals what was acquired")
+    rg = rep.rule("C15.g", "the balances read are the replayed flows (C07.a-d restated)", floor=20)
+    sub7 = Report("C07", tier)
+    c07.run(sub7, tier)
+    rep.absorb(sub7, rg, ("C07.a", "C07.b", "C07.c", "C07.d"), "balance replay")
     _check_sold_percentage(rep, rd, m)
     if cost_loops == 0 or bal_loops == 0:
         # an unrecognised way of collecting costs / balances is an unknown idiom, not a verdict (unless another rule already points at a defect)
